@@ -5,7 +5,10 @@
    2. termination of the leaf loops: with the fuel they give themselves (remaining tokens + 2) the
       out-of-fuel error is never produced, and pass_index never decreases.
    3. get_context_level is within 0..65535 and equals the plain sum when that is in range.
-   No termination proof of `run` (the mutually recursive part) is attempted. *)
+   4. the arithmetic panic sites (usize subtractions) cannot fire on strictly increasing passes.
+   No termination proof of `run` (the mutually recursive part) is attempted; that `run` never
+   decreases pass_index is in ParserGrammarRunProofs.v. *)
+From Coq Require Import Sorted.
 From PasfmtVerif Require Import Model.ParserGrammar Proofs.ParserKernelProofs.
 Local Open Scope nat_scope.
 
@@ -929,5 +932,139 @@ Example parse_file_example :
 Proof.
   split; [|vm_compute; reflexivity].
   vm_compute. constructor; [|constructor].
+  repeat (constructor; [repeat (constructor; try lia)|]). constructor.
+Qed.
+
+(* ================================================================== *)
+(* 4. the modelled panic sites that are plain arithmetic cannot fire on the passes of the directive
+      tree (strictly increasing) *)
+Lemma sorted_nth_ge_from : forall l b, increasing l -> Forall (fun x => b <= x) l ->
+  forall k t, nth_error l k = Some t -> b + k <= t.
+Proof.
+  induction l as [|a l IH]; intros b Hs Hb k t Hk; [destruct k; discriminate|].
+  pose proof (Forall_inv Hb) as Ha. cbn in Ha.
+  assert (Hs' : increasing l) by (inversion Hs; assumption).
+  assert (Hl : Forall (fun x => a < x) l) by (inversion Hs; assumption).
+  destruct k as [|k]; cbn in Hk.
+  - injection Hk as <-. lia.
+  - assert (H1 : S b + k <= t).
+    { apply (IH (S b)); [exact Hs'| |exact Hk].
+      apply Forall_forall. intros x Hx. pose proof (proj1 (Forall_forall _ _) Hl x Hx) as Y. cbn in Y. lia. }
+    lia.
+Qed.
+Lemma sorted_nth_ge l k t : increasing l -> nth_error l k = Some t -> k <= t.
+Proof.
+  intros Hs Hk. apply (sorted_nth_ge_from l 0 Hs); [|exact Hk]. apply Forall_forall. intros; lia.
+Qed.
+Lemma nth_error_skipn_add {A} : forall n (l : list A) k, nth_error (skipn n l) k = nth_error l (n + k).
+Proof. induction n as [|n IH]; intros [|a l] k; cbn; try reflexivity; [destruct k; reflexivity|apply IH]. Qed.
+Lemma nth_error_firstn_lt {A} : forall n (l : list A) k, k < n -> nth_error (firstn n l) k = nth_error l k.
+Proof.
+  induction n as [|n IH]; intros [|a l] k H; cbn; try reflexivity; try lia.
+  destruct k; cbn; [reflexivity|apply IH; lia].
+Qed.
+Lemma sorted_skipn n : forall l, increasing l -> increasing (skipn n l).
+Proof.
+  induction n as [|n IH]; intros [|a l] H; cbn; try assumption. apply IH. inversion H; assumption.
+Qed.
+Lemma sorted_firstn n : forall l, increasing l -> increasing (firstn n l).
+Proof.
+  induction n as [|n IH]; intros [|a l] H; cbn; try constructor.
+  - apply IH. inversion H; assumption.
+  - apply Forall_forall. intros x Hx. inversion H as [|? ? _ Hf]; subst.
+    apply (proj1 (Forall_forall _ _) Hf). clear - Hx. revert l Hx. induction n as [|n IHn]; intros [|b l] Hx; cbn in *; try contradiction.
+    destruct Hx as [Hx|Hx]; [left; exact Hx|right; apply IHn, Hx].
+Qed.
+Definition decreasing (l : list nat) : Prop := StronglySorted (fun a b => b < a) l.
+Lemma decreasing_snoc l a : decreasing l -> Forall (fun x => a < x) l -> decreasing (l ++ [a]).
+Proof.
+  induction l as [|b l IH]; intros Hs Hf; cbn; [constructor; constructor|].
+  inversion Hs as [|? ? Hs' Hb]; subst. constructor.
+  - apply IH; [exact Hs'|exact (Forall_inv_tail Hf)].
+  - apply Forall_app. split; [exact Hb|]. constructor; [exact (Forall_inv Hf)|constructor].
+Qed.
+Lemma sorted_rev l : increasing l -> decreasing (rev l).
+Proof.
+  induction 1 as [|a l Hs IH Hf]; cbn; [constructor|].
+  apply decreasing_snoc; [exact IH|]. apply Forall_forall. intros x Hx. apply in_rev in Hx.
+  exact (proj1 (Forall_forall _ _) Hf x Hx).
+Qed.
+
+Section NoPanic.
+Variable pass : list nat.
+Hypothesis Hinc : increasing pass.
+
+Lemma dir_before_go_some s : forall l last, increasing l -> Forall (fun i => last < i) l ->
+  dir_before_go pass s l last <> None.
+Proof.
+  induction l as [|i r IH]; intros last Hs Hf; cbn [dir_before_go]; [discriminate|].
+  pose proof (Forall_inv Hf) as Hi. cbn in Hi.
+  destruct (i <? last) eqn:E; [apply Nat.ltb_lt in E; lia|].
+  destruct (1 <? i - last); [discriminate|]. destruct (filt_at pass s i); [discriminate|].
+  apply IH; inversion Hs; assumption.
+Qed.
+Theorem is_directive_before_next_token_no_panic s : is_directive_before_next_token pass s <> None.
+Proof.
+  unfold is_directive_before_next_token. apply dir_before_go_some; [apply sorted_skipn, Hinc|].
+  apply Forall_forall. intros x Hx. apply In_nth_error in Hx. destruct Hx as [k Hk].
+  rewrite nth_error_skipn_add in Hk. apply (sorted_nth_ge _ _ _ Hinc) in Hk. lia.
+Qed.
+
+Lemma dir_after_go_some s : pass <> [] -> forall l last, decreasing l -> Forall (fun i => i < last) l ->
+  dir_after_go pass s l last <> None.
+Proof.
+  intros Hne. induction l as [|i r IH]; intros last Hs Hf; cbn [dir_after_go].
+  - clear - Hne. revert Hne. generalize pass. intros [|a q] Hne; [contradiction|discriminate].
+  - pose proof (Forall_inv Hf) as Hi. cbn in Hi.
+    destruct (last <? i) eqn:E; [apply Nat.ltb_lt in E; lia|].
+    destruct (1 <? last - i); [discriminate|]. destruct (filt_at pass s i); [discriminate|].
+    apply IH; inversion Hs; assumption.
+Qed.
+Theorem is_directive_after_prev_token_no_panic s : is_directive_after_prev_token pass s <> None.
+Proof.
+  unfold is_directive_after_prev_token. destruct (cur_index pass s) as [last|] eqn:C; [|discriminate].
+  destruct (length pass <? pidx pass s); [discriminate|].
+  apply dir_after_go_some.
+  - unfold cur_index in C. intros Hp. apply (f_equal (@length nat)) in Hp. cbn in Hp.
+    assert (pidx pass s < length pass) by (apply nth_error_Some; congruence). lia.
+  - apply sorted_rev, sorted_firstn, Hinc.
+  - apply Forall_forall. intros x Hx. apply in_rev in Hx. apply In_nth_error in Hx. destruct Hx as [k Hk].
+    assert (Hlt : k < pidx pass s).
+    { assert (L : k < length (firstn (pidx pass s) pass)) by (apply nth_error_Some; congruence).
+      rewrite firstn_length in L. lia. }
+    rewrite nth_error_firstn_lt in Hk by exact Hlt.
+    unfold cur_index in C. exact (sorted_nth_lt pass Hinc k (pidx pass s) x last Hlt Hk C).
+Qed.
+End NoPanic.
+
+(* consolidate_portability_directives: `tokens.len() - 1` is only evaluated on a non-empty line (its
+   only caller, finish_logical_line, returns early at the start of a line) *)
+Theorem consolidate_portability_directives_no_panic pass (s : pstate pass) :
+  at_start pass s = false -> ps_err pass s = None ->
+  ps_err pass (consolidate_portability_directives pass s) = None.
+Proof.
+  intros Hs He. unfold consolidate_portability_directives.
+  destruct (negb _); [exact He|].
+  unfold at_start in Hs. destruct (cur_toks pass s) as [|t r] eqn:Ct; [discriminate|]. cbn [length]. cbv zeta.
+  assert (P : forall li, ps_err pass (portability_go pass li s) = None).
+  { intros li. destruct (portability_go_same pass li s) as (_ & _ & E). congruence. }
+  destruct (o_semicolon _); [|apply P].
+  destruct (skip_trailing_comments pass s (length r)); [exact He|apply P].
+Qed.
+(* get_line_parent_of_current_token().unwrap() is called where the current token was just matched *)
+Lemma line_parent_of_current_some pass (s : pstate pass) :
+  cur_tt pass s <> None -> line_parent_of_current pass s <> None.
+Proof.
+  unfold line_parent_of_current, cur_tt, idx0. destruct (cur_index pass s); [discriminate|]. intros H. exfalso. apply H. reflexivity.
+Qed.
+
+Example no_panic_example :
+  let pass := [1; 2; 5] in
+  let s := ps_init pass [RTT_ConditionalDirective CDK_Ifdef; RTT_CompilerDirective; RTT_Identifier;
+                         RTT_ConditionalDirective CDK_Else; RTT_Identifier; RTT_Eof] [] in
+  increasing pass /\ is_directive_before_next_token pass s = Some true
+  /\ is_directive_after_prev_token pass s = Some true.
+Proof.
+  split; [|vm_compute; split; reflexivity].
   repeat (constructor; [repeat (constructor; try lia)|]). constructor.
 Qed.
